@@ -27,7 +27,8 @@ class MulLinearOperator(LinearOperator):
         Args:
             - linear_ops (A list of LinearOperator) - A list of LinearOperator to multiplicate with.
         """
-        if left_linear_op._root_decomposition_size() < right_linear_op._root_decomposition_size():
+        both_roots = isinstance(left_linear_op, RootLinearOperator) and isinstance(right_linear_op, RootLinearOperator)
+        if not both_roots and left_linear_op._root_decomposition_size() < right_linear_op._root_decomposition_size():
             left_linear_op, right_linear_op = right_linear_op, left_linear_op
 
         if not isinstance(left_linear_op, RootLinearOperator):
